@@ -146,6 +146,51 @@ def run_c10_source(ctx: Ctx, M: AnnotateModel):
            "a span start must map after material inserted at that offset (bisect_right) and a span end before it (bisect_left), so "
            f"leading/trailing inserted material stays outside the annotation; found {{k: v[:2] for k, v in got.items()}}".replace("{k: v[:2] for k, v in got.items()}", str({k: v[:2] for k, v in got.items()})),
            node=(got.get(S) or got.get(E) or (None, None, M.LOOP))[2], mod=m)
+    # R-C10-14: the offset map used by the loop is built, in this call, from the two text parameters themselves
+    upd_names = {n.func.value.id for n in walk_local(M.LOOP) if isinstance(n, ast.Call) and isinstance(n.func, ast.Attribute) and n.func.attr == "update"
+                 and len(n.args) == 2 and isinstance(n.func.value, ast.Name)}
+    params14 = [a.arg for a in f.args.args]
+
+    def _ctor_of_params(call, names, before_line, scope):
+        """`SpanUpdater(<p0>, <p1>, ...)` with p0, p1 distinct names from `names`, neither rebound earlier in `scope`."""
+        if not (isinstance(call, ast.Call) and isinstance(call.func, ast.Name) and call.func.id == "SpanUpdater" and len(call.args) >= 2):
+            return "not a direct SpanUpdater(..) construction"
+        a0, a1 = call.args[0], call.args[1]
+        if not (isinstance(a0, ast.Name) and isinstance(a1, ast.Name) and a0.id in names and a1.id in names and a0.id != a1.id):
+            return f"arguments `{norm(a0)[:40]}`, `{norm(a1)[:40]}` are not the text parameters themselves"
+        for s_ in stmts_local(scope.body):
+            if isinstance(s_, (ast.Assign, ast.AugAssign, ast.AnnAssign)) and s_.lineno < before_line and ({a0.id, a1.id} & assigned_names(s_)):
+                return f"`{norm(s_)[:50]}` rebinds a text parameter before the diff"
+        return None
+
+    for U in sorted(upd_names):
+        binds = [s_ for s_ in stmts_local(f.body) if isinstance(s_, (ast.Assign, ast.AnnAssign)) and U in assigned_names(s_)]
+        why14, at14 = None, None
+        for s_ in binds:
+            v = s_.value
+            if v is None or (isinstance(v, ast.Constant) and v.value is None):
+                continue
+            w = _ctor_of_params(v, set(params14), s_.lineno, f)
+            if w and isinstance(v, ast.Call) and isinstance(v.func, ast.Name) and repo.func(f"annotate.{v.func.id}") is not None \
+                    and all(isinstance(a_, ast.Name) and a_.id in params14 for a_ in v.args[:2]) and len(v.args) >= 2:
+                # a module-level factory: every return of it is the construction from its own first two parameters, and it keeps no state
+                g = repo.func(f"annotate.{v.func.id}")
+                gp = [a.arg for a in g.args.args]
+                rets = [r_ for r_ in walk_local(g) if isinstance(r_, ast.Return)]
+                ws = [_ctor_of_params(r_.value, set(gp[:2]), r_.lineno, g) for r_ in rets] or ["no return"]
+                w = next((x for x in ws if x), None)
+                if w is None and (not isinstance(v.args[0], ast.Name) or not isinstance(v.args[1], ast.Name) or v.args[0].id == v.args[1].id):
+                    w = "factory not called with the two text parameters"
+                if w is None:
+                    w = _ctor_of_params(ast.Call(func=ast.Name(id="SpanUpdater"), args=v.args[:2], keywords=[]), set(params14), s_.lineno, f)
+                if w:
+                    w = f"via {v.func.id}(): {w}"
+            if w:
+                why14, at14 = w, s_
+                break
+        ctx.ob("C10-R14", f"{q}/updater-built-from-the-texts:{U}", bool(binds) and why14 is None,
+               f"`{U}` is None or a SpanUpdater constructed in this call from the plain-text and source-text parameters as passed -- not from transformed "
+               f"copies and not taken from a store shared between calls ({why14 or 'ok'})", node=at14 or (binds[0] if binds else M.LOOP), mod=m)
     # C10-R10: presence tests of the offset map.  `if offset_updater:` (and `if not document.plain_to_markup` in find) mean "was a source text
     # given"; with a __len__/__bool__ on SpanUpdater an updater with no breakpoints would count as absent and plain offsets would be used
     # on the source text
